@@ -293,8 +293,24 @@ def c17_stages(tier):
     return [DS('schema-q', 'MC_Distill_schema_q.cfg'), DS('slice-q', 'MC_Distill_slice_q.cfg', shard_events=300)]
 
 
+def wscale_variants(scripts, seed, tier):
+    """copies of the networks with positively homogeneous activations and a head, with the first layer multiplied by 2^20 in the harness:
+    the same function (argmax / class head are scale invariant) computed with ill-conditioned numbers"""
+    extra = []
+    for s in scripts:
+        ks = [l['k'] for l in s['layers']]
+        if ks[-1] in ('argmax', 'class_char') and all(k in ('linear', 'relu', 'leaky', 'argmax', 'class_char') for k in ks) and ks.count('linear') >= 1:
+            for k in (20, 26):
+                c = dict(s)
+                c['wscale'] = k
+                extra.append(c)
+    return scripts + extra
+
+
 def c01_stages(tier):
-    return [DS('distill-t', 'MC_Distill_distill_t.cfg', shard_events=30)] if tier == 'thorough' else [DS('distill-q', 'MC_Distill_distill_q.cfg', shard_events=30)]
+    if tier == 'thorough':
+        return [DS('distill-t', 'MC_Distill_distill_t.cfg', shard_events=30, post=wscale_variants)]
+    return [DS('distill-q', 'MC_Distill_distill_q.cfg', shard_events=30, post=wscale_variants)]
 
 
 def c18_stages(tier):
